@@ -687,11 +687,7 @@ class IRGenerator:
                     annotation.set_attributes(annotation_type)
 
             for alias in namespace.aliases:
-                data_type = self._resolve_type(env, alias._ast_node.type_ref)
-                alias.set_attributes(alias._ast_node.doc, data_type)
-                annotations = [self._resolve_annotation_type(env, annotation)
-                               for annotation in alias._ast_node.annotations]
-                alias.set_annotations(annotations)
+                self._populate_alias_attributes(env, alias)
 
             for data_type in namespace.data_types:
                 if not data_type._is_forward_ref:
@@ -708,6 +704,21 @@ class IRGenerator:
                 self._resolution_in_progress.remove(data_type)
 
         assert len(self._resolution_in_progress) == 0
+
+    def _populate_alias_attributes(self, env, alias):
+        """
+        Converts a forward reference of an alias into a complete definition.
+        Does nothing if that has already happened or is in progress.
+        """
+        if alias.data_type is not None or alias in self._resolution_in_progress:
+            return
+        self._resolution_in_progress.add(alias)
+        data_type = self._resolve_type(env, alias._ast_node.type_ref)
+        alias.set_attributes(alias._ast_node.doc, data_type)
+        annotations = [self._resolve_annotation_type(env, annotation)
+                       for annotation in alias._ast_node.annotations]
+        alias.set_annotations(annotations)
+        self._resolution_in_progress.remove(alias)
 
     def _populate_struct_type_attributes(self, env, data_type):
         """
@@ -1210,6 +1221,14 @@ class IRGenerator:
             self._resolution_in_progress.remove(data_type)
 
         if type_ref.nullable:
+            # An alias that is defined further down (or in a spec that is processed
+            # later) has no source yet: resolve it first, the check must see it.
+            cur_data_type = data_type
+            while isinstance(cur_data_type, Alias):
+                if cur_data_type.data_type is None:
+                    self._populate_alias_attributes(
+                        self._get_or_create_env(cur_data_type.namespace.name), cur_data_type)
+                cur_data_type = cur_data_type.data_type
             unwrapped_dt, _ = unwrap_aliases(data_type)
             if isinstance(unwrapped_dt, Nullable):
                 raise InvalidSpec(
